@@ -194,7 +194,7 @@ parse_node_t* binary_int_op (parse_node_t * l, parse_node_t * r, char op, char *
                   yyerror ("Modulo by zero constant");
                   break;
                 }
-              l->v.number %= r->v.number;
+              l->v.number = lpc_int_mod (l->v.number, r->v.number);
               break;
             default:
               fatal ("Unknown opcode in binary_int_op()\n");
